@@ -103,3 +103,31 @@ Definition oc_spec_violation (c : ocase) : bool :=
     (negb (accepted c) && negb (zn_eqb [] (oc_rows c))))).
 Definition oc_check_all (cs : list ocase) : list Z * list Z :=
   (map oc_id (filter oc_mismatch cs), map oc_id (filter oc_spec_violation cs)).
+
+(* ---------------------------------------------------------------- the Cloudflare-Datadog route (PushCfDatadogV2)
+   writer/controller/datadogController.go: ddsource := req.URL.Query().Get("ddsource"); "" becomes "unknown"; the decoder
+   puts it in front of every line's labels *)
+Definition ddsource_of_query (q : string) : string := if String.eqb q "" then "unknown"%string else q.
+Section CFREQUEST.
+  Variable fp : labels -> N.
+  Variable enc_len : labels -> Z.
+  Variable CS : Type.
+  Variable cache_add : CS -> Z -> N -> N -> CS * bool.
+  Variable cache0 : CS.
+  Variable threshold : Z.
+  Variable flush_limit : N.
+  Definition cf_request (hdr q : string) (ck : clock) (lines : list cfline) : result :=
+    push_request fp enc_len CS cache_add cache0 threshold flush_limit hdr (BCf (ddsource_of_query q) ck lines).
+End CFREQUEST.
+
+(* query: the ddsource parameter text ("" = absent); status: of the real route; obs: the ddsource label of the series row the
+   route handed to its time-series service (None: the row has no such label / no row); want: the name the generator wrote *)
+Record dcase := DC { dc_id : Z; dc_query : string; dc_status : Z; dc_obs : option string; dc_want : option string }.
+Definition ostr_eqb (a b : option string) : bool :=
+  match a, b with Some x, Some y => String.eqb x y | None, None => true | _, _ => false end.
+Definition dc_mismatch (c : dcase) : bool :=
+  negb ((dc_status c =? 202) && ostr_eqb (Some (ddsource_of_query (dc_query c))) (dc_obs c)).
+Definition dc_spec_violation (c : dcase) : bool :=
+  match dc_want c with Some s => negb (ostr_eqb (Some s) (dc_obs c)) | None => false end.
+Definition dc_check_all (cs : list dcase) : list Z * list Z :=
+  (map dc_id (filter dc_mismatch cs), map dc_id (filter dc_spec_violation cs)).
